@@ -19,10 +19,14 @@ Viol(o) ==
       only == IF HasF(o.c, "only") THEN o.c.only ELSE "both"
       ex == IF want THEN J2N(o.c.expect) ELSE [kind |-> "none"]
       pv == IF o.c.op = "pipe_v" THEN J2N(o.c.v) ELSE [kind |-> "none"]
-      target == IF o.c.op = "pipe_v" THEN pv ELSE ex
-      bind == want \/ o.c.op = "pipe_v"
+      target == ex
+      \* C03 states the EQUALITY of the two pipelines; that both return the value that was formatted is C01's statement, so for
+      \* pipe_v (a well-formed text written by the enum formatter) only a difference between the pipelines is a violation and
+      \* "both agree on something else" is reported as drift.  C09 / C10 texts carry the value they must denote (`expect`).
+      bind == want
   IN V(e.r # "panic", "enum-panic") \cup V(lx.r # "panic", "lexical-panic") \cup V(f.r # "panic", "fold-panic")
      \cup V((e.r = "ok" /\ f.r = "ok") => J2N(e.v) = J2N(f.v), "pipelines-differ")
+     \cup (IF o.c.op = "pipe_v" THEN V((e.r = "ok") = (lx.r = "ok" /\ f.r = "ok"), "pipelines-disagree-on-acceptance") ELSE {})
      \cup (IF bind /\ only \in {"both", "enum"} THEN V(e.r = "ok", "enum-rejects") \cup V(e.r = "ok" => J2N(e.v) = target, "enum-other-value") ELSE {})
      \cup (IF bind /\ only \in {"both", "lex"} THEN V(lx.r = "ok" /\ f.r = "ok", "lexical-rejects") \cup V(f.r = "ok" => J2N(f.v) = target, "fold-other-value") ELSE {})
      \cup (IF HasF(o.o, "me") /\ bind THEN V(o.o.me.r = "ok" /\ J2N(o.o.me.v) = target, "enum-macro")
@@ -34,6 +38,7 @@ Drift(o) ==
   (IF m.r # o.o.e.r /\ o.o.e.r # "panic" THEN {"model-verdict"}
    ELSE IF m.r = "ok" /\ o.o.e.r = "ok" /\ MaskN(m.v, m.v) # MaskN(J2N(o.o.e.v), m.v) THEN {"model-value"} ELSE {})
   \cup (IF o.c.op = "pipe_l" /\ (o.o.e.r = "ok") # (o.o.f.r = "ok") THEN {"pipelines-disagree-on-acceptance"} ELSE {})
+  \cup (IF o.c.op = "pipe_v" /\ ((o.o.e.r = "ok" /\ J2N(o.o.e.v) # J2N(o.c.v)) \/ (o.o.e.r # "ok" /\ o.o.f.r # "ok")) THEN {"both-pipelines-miss-the-formatted-value"} ELSE {})
 
 Init == l = 1
 Next == /\ l <= Len(Obs)
